@@ -31,6 +31,19 @@ var (
 // keeps reading long after the source started failing.
 const ContinuedAfterFailure = "verif-tape: generation continued after source failure"
 
+// HardDrawCap ends a generation that keeps drawing without end (a logical-step bound, not a clock).
+const HardDrawCap = 400_000
+
+// Runaway is the panic value raised when HardDrawCap is exceeded.
+const Runaway = "verif-tape: runaway generation (more than 400000 draws in one call)"
+
+// TempError is a source error that declares itself temporary / a timeout, like EAGAIN or EINTR do.
+type TempError struct{ Msg string }
+
+func (e TempError) Error() string   { return "tape: " + e.Msg }
+func (e TempError) Temporary() bool { return true }
+func (e TempError) Timeout() bool   { return true }
+
 // Step is one announced bounded draw and the index the tape selected for it.
 type Step struct {
 	N uint32
@@ -58,6 +71,7 @@ type Tape struct {
 	FaultAt    int          // 1-based ordinal of the Read call that fails; 0 = none
 	FaultBytes int          // bytes delivered by the failing read
 	FaultStick bool         // every later read fails as well
+	FaultErr   error        // the error the failing read returns (nil: ErrInjected)
 	Yield      bool         // runtime.Gosched() inside every Read
 	KeepLog    bool
 
@@ -101,6 +115,9 @@ func OSReader() io.Reader { return osReader }
 // OnDraw is called by the hook at the start of every bounded draw.
 func (t *Tape) OnDraw(n uint32) {
 	t.Draws++
+	if t.Draws > HardDrawCap {
+		panic(Runaway)
+	}
 	if t.MaxDraws > 0 && t.Draws > t.MaxDraws {
 		t.Cut = true
 		t.failed = ErrCut
@@ -209,11 +226,15 @@ func (t *Tape) Read(b []byte) (int, error) {
 		copy(b, t.buf[:k])
 		t.buf = t.buf[k:]
 		t.BytesOut += k
+		ferr := t.FaultErr
+		if ferr == nil {
+			ferr = ErrInjected
+		}
 		if t.FaultStick {
-			t.failed = ErrInjected
+			t.failed = ferr
 		}
 		t.logRead(len(b), k, true)
-		return k, ErrInjected
+		return k, ferr
 	}
 	if k > len(t.buf) {
 		k = len(t.buf)
